@@ -1,5 +1,6 @@
 import MxModel.Struct.Mech
 import MxModel.Struct.MechRename
+import MxModel.Struct.MechBatch
 import MxModel.Generated.Tables
 /-! Line-protocol driver for the incremental mechanism model of `SpaceManager` / `SpaceUpdater`
 (`MxModel/Struct/Mech.lean`): one edit per line, `acc` / `rej` per edit, `obs` prints the whole state. -/
@@ -60,6 +61,31 @@ def step (st : St) (line : String) : St × String :=
   | ["renamespace", p, new] =>
     let r := st.stepR kw (.renameSpace (pathOf p) new)
     (r.1, if r.2 then "acc" else "rej")
+  -- one call that creates several cells (`Struct/MechBatch.lean`): `n1=v1,n2=v2` are the names and payloads
+  | ["cellsbatch", p, es] =>
+    match refsOf es with
+    | none => (st, "bad-op")
+    | some es => let r := st.batchStep kw (pathOf p) es; (r.1, if r.2 then "acc" else "rej")
+  | ["modulebatch", p, es] =>
+    match refsOf es with
+    | none => (st, "bad-op")
+    | some es => let r := st.moduleStep kw (pathOf p) es; (r.1, if r.2 then "acc" else "rej")
+  | ["spacebatch", parent, name, es] =>
+    match refsOf es with
+    | none => (st, "bad-op")
+    | some es => let r := st.newSpaceBatchStep kw (pathOf parent) name es; (r.1, if r.2 then "acc" else "rej")
+  | ["spacemodule", parent, name, bases, es] =>
+    match refsOf es with
+    | none => (st, "bad-op")
+    | some es =>
+      let r := st.newSpaceModule kw (pathOf parent) name ((csv bases).map pathOf) es
+      (r.1, if r.2 then "acc" else "rej")
+  | ["spacemodulechecked", parent, name, bases, es] =>
+    match refsOf es with
+    | none => (st, "bad-op")
+    | some es =>
+      let r := st.newSpaceModuleCheckedStep kw (pathOf parent) name ((csv bases).map pathOf) es
+      (r.1, if r.2 then "acc" else "rej")
   | toks =>
     match parseOp toks with
     | none => (st, "bad-op")
